@@ -275,7 +275,11 @@ def generate(rng, n, tier, pid):
             k = rng.weighted([(6, "pc"), (5, "pu"), (3, "pb"), (2, "ex"), (3, "an"), (5, "rp"), (6, "bf"), (4, "cs"), (4, "ab"), (1, "pf"),
                               (3, "rd"), (1, "cl"), (1, "fl"), (1, "ec"), (1, "ta"), (1, "sa"),
                               (3 if multi else 0, "cn"), (2 if multi else 0, "tk"), (2 if multi else 0, "dr"), (1 if multi else 0, "new")])
-            if k in ("pc", "pu", "pb", "an"):
+            if k == "an" and rng.chance(1, 3):
+                # a short read: the reader holds fewer bytes than read_n is asked for
+                b = rand_bytes(rng)
+                toks.append(f"@{i}:an:{hexs(b)}:{len(b) + rng.choice([1, 5, 100, 3000, 5000])}")
+            elif k in ("pc", "pu", "pb", "an"):
                 toks.append(f"@{i}:{k}:{hexs(rand_bytes(rng))}")
             elif k == "ex":
                 toks.append(f"@{i}:ex:" + ",".join(hexs(rand_bytes(rng, False)) for _ in range(rng.range(1, 3))))
@@ -293,6 +297,11 @@ def generate(rng, n, tier, pid):
             elif k in ("cs", "ab", "rd"):
                 toks.append(f"@{i}:{k}:{rng.choice([0, 1, 2, 3, 5, 63, 64, 65, 300, 100000])}")
             elif k == "pf":
+                # pop_front panics when nothing is consumable (documented): make sure a hole-free slice is there,
+                # otherwise the history would end here
+                if any(l is not None for l in slots[i]):
+                    continue
+                toks.append(f"@{i}:pb:{hexs(rand_bytes(rng, False))}")
                 toks.append(f"@{i}:pf")
             elif k == "cl":
                 toks.append(f"@{i}:cl")
